@@ -412,7 +412,29 @@ class Interp:
                 self.assign(t, v, env, mod)
         elif isinstance(s, ast.AugAssign):
             cur = self.expr(ast.copy_location(_load(s.target), s), env, mod)
-            v = self._binop(s.op, cur, self.expr(s.value, env, mod))
+            rhs = self.expr(s.value, env, mod)
+            # augmented assignment to a mutable container changes the object itself (every other name for it sees the change)
+            if type(cur) is list and isinstance(s.op, ast.Add) and isinstance(rhs, (list, tuple, set, frozenset, dict, str, range)):
+                cur.extend(rhs)
+                v = cur
+            elif type(cur) is list and isinstance(s.op, ast.Mult) and isinstance(rhs, int) and not isinstance(rhs, bool):
+                cur *= rhs
+                v = cur
+            elif type(cur) is set and isinstance(rhs, (set, frozenset)) and isinstance(s.op, (ast.BitOr, ast.BitAnd, ast.Sub, ast.BitXor)):
+                if isinstance(s.op, ast.BitOr):
+                    cur |= rhs
+                elif isinstance(s.op, ast.BitAnd):
+                    cur &= rhs
+                elif isinstance(s.op, ast.Sub):
+                    cur -= rhs
+                else:
+                    cur ^= rhs
+                v = cur
+            elif type(cur) is dict and isinstance(s.op, ast.BitOr) and isinstance(rhs, dict):
+                cur.update(rhs)
+                v = cur
+            else:
+                v = self._binop(s.op, cur, rhs)
             self.assign(s.target, v, env, mod)
         elif isinstance(s, ast.Return):
             raise _Return(self.expr(s.value, env, mod) if s.value is not None else None)
